@@ -275,6 +275,10 @@ class WriterModel:
                 if w:
                     return [("tok", ("K", w))]
             return [("tok", ("TEXT",))]
+        # a String built by joining a word list: one piece that carries every alternative word sequence
+        for cand in (term, t):
+            if cand and cand[0] == "wordstr":
+                return [("alt", cand[1])]
         # a String built by format!(..): inline its template
         if term and term[0] == "fmtstr" and depth < 4:
             return self.template_pieces(fn, term[1], term[2], depth + 1)
@@ -308,14 +312,121 @@ class WriterModel:
                     pieces.append(("tok", ("WILD",)))
         return pieces
 
-    def paths(self, fn):
-        """token sequences (tuples) a writer routine can emit on its successful paths (loops 0/1 times)"""
-        if fn.id in self.cache:
-            return self.cache[fn.id]
-        self.cache[fn.id] = []
+    # ---- word lists: Vec<String> built by push / extend / vec![..] and joined with a separator
+    WILDWORD = (("tok", ("WILD",)),)
+
+    def word_of(self, fn, x):
+        """pieces of a single pushed String term, or None when x is not a single word"""
+        if not isinstance(x, tuple):
+            return None
+        if x[0] == "fmtarg":
+            return tuple(self.arg_pieces(fn, x[1], x[2]))
+        if x[0] == "fmtstr":
+            return tuple(self.template_pieces(fn, x[1], x[2]))
+        if x[0] == "const" and isinstance(x[1], str):
+            return (("lit", x[1]),) if x[1] else ()
+        if x[0] == "promoted":
+            return self.word_of(fn, self.L.promoted_term(fn, x[1]))
+        return None
+
+    def words_alts(self, fn, t, depth=0):
+        """alternatives (tuples of words; a word is a tuple of pieces) a Vec<String>-valued term can hold; None = not a word list"""
+        if not isinstance(t, tuple) or depth > 6:
+            return None
+        while t[0] == "call" and t[1] and re.search(r"Deref>::deref$|DerefMut>::deref_mut$|::as_slice$|::as_ref$|::borrow$|::clone$|::to_vec$", t[1]) and t[2]:
+            t = t[2][0]
+        if t[0] == "call" and t[1] and re.search(r"Vec::<.*>::(new|with_capacity)$", t[1]):
+            return [()]
+        if t[0] == "wordalts":
+            return list(t[1])
+        if t[0] == "agg" and t[1] == "array":
+            ws = []
+            for it in t[2]:
+                w = self.word_of(fn, it)
+                ws.append(w if w is not None else self.WILDWORD)
+            return [tuple(ws)]
+        if t[0] == "op" and t[1] == "mut" and t[2]:
+            alts = self.words_alts(fn, t[2][0], depth + 1)
+            if alts is None:
+                return None
+            for x in t[2][1:]:
+                w = self.word_of(fn, x)
+                if w is not None:
+                    alts = [a + (w,) for a in alts]
+                    continue
+                sub = self.words_alts(fn, x, depth + 1)
+                if sub is None:
+                    # an iterator chain (`pts.iter().map(|p| p.to_string())`) or anything else: unknown words
+                    sub = [(self.WILDWORD,)]
+                alts = [a + b for a in alts for b in sub][:96]
+            return alts
+        return None
+
+    def fn_word_alts(self, g, args, depth=0):
+        """inline a routine that returns a word list, with the caller's argument terms bound to its parameters"""
+        key = ("words", g.id, args)
+        if key in self.cache:
+            return self.cache[key]
+        self.cache[key] = [(self.WILDWORD,)]
+        from .walk import Path
+        init = Path()
+        for i, a in enumerate(args):
+            if a is not None and i >= 1:
+                init.env[i + 1] = a
+        w = Walker(g, max_visits=2, follow_errors=False, max_paths=3000)
+        rets = []
+        w.run(init=init, on_call=self._mk_on_call(g, emit=False, depth=depth + 1), on_return=lambda p: rets.append(p.env.get(0)), on_switch=agg_switch(self.F), on_stmt=self._on_stmt)
+        alts = []
+        for r in rets:
+            wa = self.words_alts(g, r) if r is not None else None
+            if wa is None:
+                wa = [(self.WILDWORD,)]
+            for a in wa:
+                if a not in alts:
+                    alts.append(a)
+        self.cache[key] = alts[:96]
+        return self.cache[key]
+
+    @staticmethod
+    def _opt_variant(L, fn, t):
+        if t and t[0] == "promoted":
+            t = L.promoted_term(fn, t[1])
+        t = strip_calls(t) if t else t
+        if t and t[0] == "promoted":
+            t = L.promoted_term(fn, t[1])
+        if t and t[0] == "agg" and isinstance(t[1], str) and t[1].endswith(("option::Option::None", "option::Option::Some")):
+            return t[1].rsplit("::", 1)[1]
+        return None
+
+    @staticmethod
+    def _on_stmt(path, bb, st, val):
+        # `vec![a, b]` lowering: the array is stored through a raw pointer into a fresh box, then turned into a Vec
+        if st["p"]["p"] and st["p"]["p"][0] == "*" and val and val[0] == "agg" and val[1] == "array":
+            path.facts[("vecinit",)] = val
+
+    def expand_alt_pieces(self, pieces):
+        """piece lists for every combination of alternatives; words of one alternative are separated by a blank"""
+        outs = [[]]
+        for pc in pieces:
+            if pc[0] == "alt":
+                nxt = []
+                for alt in pc[1]:
+                    flat = []
+                    for wi, wd in enumerate(alt):
+                        if wi:
+                            flat.append(("lit", " "))
+                        flat += list(wd)
+                    for o in outs:
+                        nxt.append(o + flat)
+                outs = nxt[:128]
+            else:
+                for o in outs:
+                    o.append(pc)
+        return outs
+
+    def _mk_on_call(self, fn, emit=True, depth=0):
         F = self.F
-        w = Walker(fn, max_visits=2, follow_errors=False, max_paths=6000)
-        out = set()
+        L = self.L
         model = self
 
         def fmtargs_of(term):
@@ -327,6 +438,29 @@ class WriterModel:
             n = name or ""
             c = op_const(t["f"]) or {}
             ga = c.get("rargs") or c.get("gargs") or []
+            # ---- word lists
+            if n.endswith("box_assume_init_into_vec_unsafe") and ("vecinit",) in path.facts:
+                return ("value", path.facts[("vecinit",)])
+            if re.search(r"PartialEq(<.*>)?>?::(eq|ne)$", n) and len(args) == 2:
+                va, vb = model._opt_variant(L, fn, args[0]), model._opt_variant(L, fn, args[1])
+                if va and vb and "None" in (va, vb):
+                    eq = (va == vb)
+                    val = eq if n.endswith("::eq") else not eq
+                    return ("value", ("const", "true" if val else "false", 1 if val else 0))
+            if re.search(r"::(is_some|is_none)$", n) and args:
+                va = model._opt_variant(L, fn, args[0])
+                if va:
+                    val = (va == "Some") == n.endswith("is_some")
+                    return ("value", ("const", "true" if val else "false", 1 if val else 0))
+            if re.search(r"::join$|::concat$", n) and args:
+                alts = model.words_alts(fn, args[0])
+                sep = strip_calls(args[1]) if len(args) > 1 else None
+                if alts is not None and (sep is None or (sep[0] == "const" and sep[1] == " ")):
+                    return ("value", ("wordstr", tuple(alts)))
+            cid0 = callee_id(t)
+            g0 = F.fns.get(cid0)
+            if g0 is not None and g0.id.startswith("lef21::write::") and re.match(r"std::vec::Vec<std::string::String", (g0.output or {}).get("s", "")) and depth < 3:
+                return ("value", ("wordalts", tuple(model.fn_word_alts(g0, args, depth))))
             if re.search(r"fmt::rt::Argument::<.*>::new_(display|debug)$|Argument::<'_>::new_display$", n) and args:
                 tn = ga[-1] if ga else "?"
                 # the generic argument list may start with a lifetime
@@ -360,8 +494,13 @@ class WriterModel:
                     if fa is None or fa[1] is None:
                         path.events.append(("WILD",))
                     else:
-                        for tk in lex_line(model.template_pieces(fn, fa[1], fa[2])):
-                            path.events.append(tk)
+                        variants = [tuple(lex_line(pcs)) for pcs in model.expand_alt_pieces(model.template_pieces(fn, fa[1], fa[2]))]
+                        variants = list(dict.fromkeys(variants))
+                        if len(variants) == 1:
+                            for tk in variants[0]:
+                                path.events.append(tk)
+                        else:
+                            path.events.append(("ALT", tuple(variants)))
                     path.events.append(("EOL",))
                     return ("value", ("agg", "core::result::Result::Ok", (("const", "()", None),)))
                 pt = writer_param_type(g)
@@ -372,13 +511,35 @@ class WriterModel:
                 return ("value", ("agg", "core::ops::ControlFlow::Continue", args[0][2]))
             return None
 
+        return on_call
+
+    def paths(self, fn):
+        """token sequences (tuples) a writer routine can emit on its successful paths (loops 0/1 times)"""
+        if fn.id in self.cache:
+            return self.cache[fn.id]
+        self.cache[fn.id] = []
+        F = self.F
+        w = Walker(fn, max_visits=2, follow_errors=False, max_paths=6000)
+        out = set()
+        model = self
+
+        on_call = self._mk_on_call(fn)
+
         def on_return(path):
             # successful paths only: the returned value is Ok(..)
             ret = path.env.get(0)
             if ret and ret[0] == "agg" and str(ret[1]).endswith("::Err"):
                 return
-            out.add(tuple(path.events))
-        w.run(on_call=on_call, on_return=on_return, on_switch=agg_switch(F))
+            seqs = [[]]
+            for ev in path.events:
+                if ev[0] == "ALT":
+                    seqs = [sq + list(v) for sq in seqs for v in ev[1]][:256]
+                else:
+                    for sq in seqs:
+                        sq.append(ev)
+            for sq in seqs:
+                out.add(tuple(sq))
+        w.run(on_call=on_call, on_return=on_return, on_switch=agg_switch(F), on_stmt=self._on_stmt)
         if w.truncated:
             self.truncated.add(fn.id)
         res = sorted(out)
